@@ -129,15 +129,32 @@ def check_etod(ctx, anchor):
 
 
 def check_forwarders(ctx, anchor):
+    WRAP = {"TestResultDecorator": "TestResultDecorator({0})", "Tagger": "Tagger({0}, {{'new-tag'}}, {{'gone-tag'}})", "ExtendedToOriginalDecorator": "ExtendedToOriginalDecorator({0})"}
     stacks = {
-        "TestResultDecorator": ("r = TestResultDecorator(plain)", ("plain",), False),
-        "Tagger": ("r = Tagger(plain, {'new-tag'}, {'gone-tag'})", ("plain",), True),
-        "MultiTestResult": ("r = MultiTestResult(plain, plain2)", ("plain", "plain2"), False),
-        "Tagger over TestResultDecorator": ("r = Tagger(TestResultDecorator(plain), {'new-tag'}, {'gone-tag'})", ("plain",), True),
-        "ExtendedToOriginalDecorator over MultiTestResult": ("r = ExtendedToOriginalDecorator(MultiTestResult(plain, plain2))", ("plain", "plain2"), False),
+        "TestResultDecorator": ("r = TestResultDecorator(plain)", ("plain",), 0),
+        "Tagger": ("r = Tagger(plain, {'new-tag'}, {'gone-tag'})", ("plain",), 1),
+        "MultiTestResult": ("r = MultiTestResult(plain, plain2)", ("plain", "plain2"), 0),
     }
+    # every wrapper over every wrapper (two levels): a call must survive each way the classes name their parameters
+    kinds = ("TestResultDecorator", "Tagger", "MultiTestResult", "ExtendedToOriginalDecorator")
+    for outer in kinds:
+        for inner in kinds:
+            if outer == "MultiTestResult":
+                expr = "MultiTestResult(plain, plain2)" if inner == "MultiTestResult" else f"MultiTestResult({WRAP[inner].format('plain')}, {WRAP[inner].format('plain2')})"
+                if inner == "MultiTestResult":
+                    expr = "MultiTestResult(MultiTestResult(plain), MultiTestResult(plain2))"
+                targets = ("plain", "plain2")
+            elif inner == "MultiTestResult":
+                expr, targets = WRAP[outer].format("MultiTestResult(plain, plain2)"), ("plain", "plain2")
+            else:
+                expr, targets = WRAP[outer].format(WRAP[inner].format("plain")), ("plain",)
+            if outer == inner == "ExtendedToOriginalDecorator":
+                continue
+            stacks[f"{outer} over {inner}"] = ("r = " + expr, targets, (outer == "Tagger") + (inner == "Tagger"))
     for name, (build, targets, tagging) in stacks.items():
         for oc in OUTCOMES:
+            if ctx.tier != "thorough" and " over " in name and oc not in ("addError", "addSkip", "addUnexpectedSuccess"):
+                continue
             for form in (("plain", "details") if ctx.tier == "thorough" or oc in ("addFailure", "addSkip") else ("plain",)):
                 sc = _scenario(ctx, "extended", names=("plain", "plain2"))
                 body = (f"    {build}\n    r.startTestRun()\n    r.time(t0)\n    r.tags(newtags, gonetags)\n    r.startTest(test)\n    {_call(oc, form)}\n    r.time(t1)\n    r.stopTest(test)\n"
@@ -152,7 +169,7 @@ def check_forwarders(ctx, anchor):
                     for who in targets:
                         got = _received(r, who)
                         seq = [m for m, _, _ in got]
-                        want = ["startTestRun", "time", "tags", "startTest"] + (["tags"] if tagging else []) + [oc, "time", "stopTest", "stop", "time", "stopTestRun"]
+                        want = ["startTestRun", "time", "tags", "startTest"] + ["tags"] * tagging + [oc, "time", "stopTest", "stop", "time", "stopTestRun"]
                         if seq != want:
                             problems.add(f"{who} receives {seq}; expected {want}")
                             continue
